@@ -49,8 +49,8 @@ class World:
             return d
         return {"k": "other"}
 
-    def observe_all(self):
-        return [self.obs(i) for i in range(NSLOTS)]
+    def observe_all(self, deep=True):
+        return [self.obs(i, deep) for i in range(NSLOTS)]
 
     def kinds(self):
         s = _serif()
@@ -101,8 +101,45 @@ def mk_key(k):
     raise ValueError(k)
 
 
-def choose_step(rng, w, flavor):
+def related_slots(st):
+    out = []
+    for f in ("dst", "src", "a", "t", "r", "L", "R"):
+        if isinstance(st.get(f), int):
+            out.append(st[f])
+    if isinstance(st.get("b"), list) and st["b"][0] == "slot":
+        out.append(st["b"][1])
+    out += [i for i in st.get("srcs", []) if isinstance(i, int)]
+    return out
+
+
+def poke_step(rng, w, slot):
+    """an in-place write through `slot` (vector item assignment / table cell assignment)"""
+    k = w.kinds()[slot] if 0 <= slot < NSLOTS else None
+    if k == "v":
+        n = len(w.slots[slot])
+        if n == 0:
+            return None
+        return {"op": "write", "r": slot, "key": ["int", rng.randrange(n)], "val": ["scalar", rng.choice([5, 7, 8])]}
+    if k == "t":
+        tb = w.slots[slot]
+        nc, n = len(tb.cols()), len(tb)
+        if nc == 0 or n == 0:
+            return None
+        if rng.random() < 0.5:
+            return {"op": "tabwrite", "t": slot, "form": "cell", "row": rng.randrange(n), "col": rng.randrange(nc),
+                    "val": rng.choice([5, 7, 8])}
+        return {"op": "getcol", "dst": rng.randrange(NSLOTS), "t": slot, "j": rng.randrange(nc), "how": rng.choice(["cols", "attr", "str"])}
+    return None
+
+
+def choose_step(rng, w, flavor, last=None):
     """draw one applicable concrete step for the current world"""
+    if last is not None and rng.random() < 0.55:
+        rel = related_slots(last)
+        if rel:
+            st = poke_step(rng, w, rng.choice(rel))
+            if st is not None and not (st["op"] == "getcol" and st["dst"] in rel):
+                return st
     kinds = w.kinds()
     vecs = [i for i, k in enumerate(kinds) if k == "v"]
     tabs = [i for i, k in enumerate(kinds) if k == "t"]
@@ -449,13 +486,13 @@ def run_history(spec, deep=True, fp_check=False):
                 if not applicable(w, st):
                     continue
             else:
-                st = choose_step(rng, w, spec.get("flavor"))
+                st = choose_step(rng, w, spec.get("flavor"), steps[-1] if steps else None)
             res, extra = run_step(w, st)
             if res == "ok":
                 note = valid_result(w, st)
                 if note:
                     extra["note"] = note
-            rec = {"st": st, "res": res, "extra": extra, "obs": w.observe_all()}
+            rec = {"st": st, "res": res, "extra": extra, "obs": w.observe_all(deep)}
             if fp_check:
                 rec["fps"] = fingerprints(w)
             steps.append(st)
